@@ -12,6 +12,8 @@ import SvgVerif.Model.Seg
 import SvgVerif.Model.ArcParam
 import SvgVerif.Model.BBox
 import SvgVerif.Model.Shapes
+import SvgVerif.Model.PathParse
+import SvgVerif.Spec.PathSpec
 open Svg Svg.Wire
 
 def fmtMat (m : Mat Float) : String :=
@@ -166,6 +168,59 @@ def arcOfWire (toks : List String) : Option (ArcData Float) :=
         (floatOfHex rot) (fa = "1") (fs = "1"))
   | _ => none
 
+
+-- ---------------------------------------------------------------- path stack (C01, C09, C17)
+def bstr (b : Bool) : String := if b then "1" else "0"
+
+def fmtPSeg : PSeg Float → String
+  | .move r s e => "M " ++ bstr r ++ " " ++ fmtOptPt s ++ " " ++ fmtOptPt e
+  | .line r s e => "L " ++ bstr r ++ " " ++ fmtOptPt s ++ " " ++ fmtOptPt e
+  | .close r s e => "Z " ++ bstr r ++ " " ++ fmtOptPt s ++ " " ++ fmtOptPt e
+  | .quad r sm s c e => "Q " ++ bstr r ++ " " ++ bstr sm ++ " " ++ fmtOptPt s ++ " " ++ fmtOptPt c ++ " " ++ fmtOptPt e
+  | .cubic r sm s c1 c2 e => "C " ++ bstr r ++ " " ++ bstr sm ++ " " ++ fmtOptPt s ++ " " ++ fmtOptPt c1 ++ " " ++ fmtOptPt c2
+      ++ " " ++ fmtOptPt e
+  | .arc r s rx ry rot fa fs e => "A " ++ bstr r ++ " " ++ fmtPt s ++ " " ++ hexOfFloat rx ++ " " ++ hexOfFloat ry ++ " "
+      ++ hexOfFloat rot ++ " " ++ bstr fa ++ " " ++ bstr fs ++ " " ++ fmtPt e
+
+def fmtPSegs (l : List (PSeg Float)) : String := " | ".intercalate (l.map fmtPSeg)
+
+def fmtParse (r : List (PSeg Float) × Option PyErr) : String :=
+  (match r.2 with | none => "OK" | some e => fmtErr e) ++ "\t" ++ fmtPSegs r.1
+
+def cmdOf (toks : List String) : Option (Cmd Float) :=
+  let f := floatOfHex
+  match toks with
+  | ["M", r, x, y] => some (.moveTo (r = "1") ⟨f x, f y⟩)
+  | ["L", r, x, y] => some (.lineTo (r = "1") ⟨f x, f y⟩)
+  | ["H", r, x] => some (.hTo (r = "1") (f x))
+  | ["V", r, y] => some (.vTo (r = "1") (f y))
+  | ["Q", r, a, b, c, d] => some (.quadTo (r = "1") ⟨f a, f b⟩ ⟨f c, f d⟩)
+  | ["T", r, x, y] => some (.smoothQuadTo (r = "1") ⟨f x, f y⟩)
+  | ["C", r, a, b, c, d, e, g] => some (.cubicTo (r = "1") ⟨f a, f b⟩ ⟨f c, f d⟩ ⟨f e, f g⟩)
+  | ["S", r, a, b, c, d] => some (.smoothCubicTo (r = "1") ⟨f a, f b⟩ ⟨f c, f d⟩)
+  | ["A", r, rx, ry, rot, fa, fs, x, y] => some (.arcTo (r = "1") (f rx) (f ry) (f rot) (fa = "1") (fs = "1") ⟨f x, f y⟩)
+  | ["Z", r] => some (.closePath (r = "1"))
+  | ["Lz", r] => some (.lineToZ (r = "1"))
+  | ["Qz", r, a, b] => some (.quadToZ (r = "1") ⟨f a, f b⟩)
+  | ["Tz", r] => some (.smoothQuadToZ (r = "1"))
+  | ["Cz", r, a, b, c, d] => some (.cubicToZ (r = "1") ⟨f a, f b⟩ ⟨f c, f d⟩)
+  | ["Sz", r, a, b] => some (.smoothCubicToZ (r = "1") ⟨f a, f b⟩)
+  | ["Az", r, rx, ry, rot, fa, fs] => some (.arcToZ (r = "1") (f rx) (f ry) (f rot) (fa = "1") (fs = "1"))
+  | _ => none
+
+def cmdsOf (s : String) : Option (List (Cmd Float)) :=
+  ((s.splitOn "|").filter (fun t => t.trimAscii.toString ≠ "")).mapM fun t => cmdOf ((t.splitOn " ").filter (· ≠ ""))
+
+/-- `float(text)`; `none` when the literal overflows a double -/
+def numOvf (n : NumLit) : Option Float := let v := numF n; if v.isInf then none else some v
+
+/-- `Path(a) ; p.parse(b) ; …`: stop at the first exception, as Python would -/
+def parseSeq (parts : List String) : List (PSeg Float) × Option PyErr :=
+  parts.foldl (fun (acc : List (PSeg Float) × Option PyErr) h =>
+    match acc.2 with
+    | some _ => acc
+    | none => parsePath numOvf acc.1 (stringOfHex h).toList) ([], none)
+
 -- ---------------------------------------------------------------- C11
 def boxOf : List Float → Box Float
   | [x, y, w, h] => ⟨x, y, w, h⟩
@@ -173,6 +228,15 @@ def boxOf : List Float → Box Float
 
 def step (line : String) : String :=
   match line.splitOn "\t" with
+  | "path.parse" :: parts => fmtParse (parseSeq parts)
+  | ["path.spec", c] =>
+      (match cmdsOf c with
+       | some cs => (match interp cs with | some l => "OK\t" ++ fmtPSegs l | none => "NONE\t")
+       | none => "bad-op")
+  | ["path.run", c] =>
+      (match cmdsOf c with
+       | some cs => (match runCmds [] cs with | .ok l => "OK\t" ++ fmtPSegs l | .error e => fmtErr e ++ "\t")
+       | none => "bad-op")
   | ["seg.point", sg, t] =>
       (match segOfStr sg with | some s => "OK " ++ fmtPt (s.point (floatOfHex t)) | none => "bad-op")
   | ["seg.mul", sg, m] =>
